@@ -6161,7 +6161,7 @@ impl GraphEngine {
                     };
                     if let Ok(neighbor) = self.get_node(neighbor_id) {
                         // Avoid duplicates for undirected edges
-                        if !results.iter().any(|(n, _)| n.id == neighbor.id) {
+                        if !results.iter().any(|(_, e)| e.id == edge.id) {
                             results.push((neighbor, edge));
                         }
                     }
